@@ -188,9 +188,11 @@ func c19Run(e *vh.Env, c c19Case, o *vh.Out) {
 	}
 	// new connections are refused after a graceful shutdown of the server
 	if c.Mode != "stop-only" {
+		before := bes[0].Count() + bes[1].Count()
 		rs := vh.Do(sys.Addr, vh.RawReq{Method: "GET", Target: "/after", TimeoutMs: 5000})
-		if rs.Status != 0 {
-			o.Viol("C19|still-serving", fmt.Sprintf("%s: after shutdown a new request was answered with %d", ctx, rs.Status), nil)
+		// the freed port may already belong to another process: only an answer that involved our backends counts
+		if rs.Status != 0 && bes[0].Count()+bes[1].Count() > before {
+			o.Viol("C19|still-serving", fmt.Sprintf("%s: after shutdown a new request was still proxied (status %d)", ctx, rs.Status), nil)
 		}
 	} else {
 		sys.Srv.Close()
